@@ -986,7 +986,13 @@ def colorized_pyval_fallback(_: List[ParseError], doc:ParsedDocstring, __:model.
     """
     This fallback function uses L{ParsedDocstring.to_node()}, so it must be used only with L{ParsedDocstring} subclasses that implements C{to_node()}.
     """
-    return Tag('code')(node2stan.gettext(doc.to_node()))
+    try:
+        node = doc.to_node()
+    except NotImplementedError:
+        # A type given in a docstring field can't be turned into a document:
+        # show the same placeholder as for any other field that can't be rendered.
+        return BROKEN
+    return Tag('code')(node2stan.gettext(node))
 
 def _format_constant_value(obj: model.Attribute) -> Iterator["Flattenable"]:
 
